@@ -454,6 +454,7 @@ func ruleC10(r *Report) {
 	safely(r, func() { checkPadding(r, NewAnalysis(p), sc, "C10.padding", true) })
 	checkC10Digest(r, p)
 	safely(r, func() { checkDigestAdvertised(r, p, "C10.digest") })
+	safely(r, func() { checkUnprefixedPaths(r, p, "C10.digest") })
 	safely(r, func() { checkAEADPlain(r, p, sc, "C10.aead-plain") })
 }
 
@@ -1148,4 +1149,45 @@ func checkDigestAdvertised(r *Report, p *Prog, rule string) {
 	if n == 0 {
 		r.Bad(rule, p.FnName(fn)+": the digest used to wrap the key is named in the EncryptedKey", p.Pos(fn.Pos()), "RSA.Encrypt never writes a ds:DigestMethod element")
 	}
+}
+
+// checkUnprefixedPaths: the decrypt side of xmlenc finds the parts of a received element by local name. An etree path
+// matches a "prefix:" in a segment against the literal prefix text of the document, not the namespace it is bound to,
+// so "./EncryptionMethod/ds:DigestMethod" misses the same element written with a default namespace or another prefix
+// (and the digest silently falls back to SHA-1). Every constant path handed to Find*/Select* in package xmlenc outside
+// the Encrypt functions is free of prefixes.
+func checkUnprefixedPaths(r *Report, p *Prog, rule string) {
+	n := 0
+	bad := ""
+	for _, fn := range p.modFns {
+		if !p.InLibrary(fn) || fn.Pkg == nil || fn.Pkg.Pkg.Path() != xmlencPath {
+			continue
+		}
+		for _, b := range fn.Blocks {
+			for _, in := range b.Instrs {
+				c, ok := in.(*ssa.Call)
+				if !ok || c.Call.StaticCallee() == nil || c.Call.StaticCallee().Pkg == nil || c.Call.StaticCallee().Pkg.Pkg.Path() != etreePath {
+					continue
+				}
+				nm := c.Call.StaticCallee().Name()
+				if !(strings.HasPrefix(nm, "Find") || strings.HasPrefix(nm, "Select")) || len(c.Call.Args) < 2 {
+					continue
+				}
+				path, ok := constStr(c.Call.Args[1])
+				if !ok {
+					continue
+				}
+				n++
+				for _, seg := range strings.Split(path, "/") {
+					if i := strings.IndexAny(seg, "[@"); i >= 0 {
+						seg = seg[:i]
+					}
+					if strings.Contains(seg, ":") {
+						bad = firstNonEmpty(bad, fmt.Sprintf("%s looks up %q at %s", p.FnName(fn), path, p.InstrPos(in)))
+					}
+				}
+			}
+		}
+	}
+	r.Check(n >= 4 && bad == "", rule, "received elements are searched by local name (no namespace prefix in an etree path)", "-", fmt.Sprintf("%d constant lookup paths in package xmlenc, none with a prefix", n), "a lookup path names a namespace prefix ("+bad+"): etree compares it with the prefix text the sender happened to use, so the same element bound through a default namespace or another prefix is not found")
 }
